@@ -85,10 +85,11 @@ def cmdExecG (lenient : Bool) (spec : Bool) (a : List String) : String :=
                 | .error err => s!"before={before} result=FAIL:{err.code} after=- script_same=1"
           else
             match Model.instEval baseCtx e (toks.map tokBytes) with
-            | none => s!"before={before} result=FAIL:REFUSED after=- script_same=1"
+            | none => s!"before={before} result=FAIL:REFUSED after=- script_same=1 afterfail={before}"
             | some (e', none) => s!"before={before} result=OK after={fullState e'} script_same=1"
-            | some (_, some (.script err)) => s!"before={before} result=FAIL:{err.code} after=- script_same=1"
-            | some (_, some (.exc _)) => s!"before={before} result=FAIL:EXC after=- script_same=1"
+            -- a failing operation ends the list: what the operations before it did stays, the failing one leaves nothing behind
+            | some (e', some (.script err)) => s!"before={before} result=FAIL:{err.code} after=- script_same=1 afterfail={fullState e'}"
+            | some (e', some (.exc _)) => s!"before={before} result=FAIL:EXC after=- script_same=1 afterfail={fullState e'}"
             | some (_, some (.abnormal k)) => s!"before={before} result=ABNORMAL:{k} after=- script_same=1"
     | _, _ => "bad-op"
   | _ => "bad-op"
